@@ -578,6 +578,8 @@ Proof.
       eapply same_ctl_Inv; [apply same_ctl_mdepth|assumption].
   - destruct (co_destroy k s) as [r s1] eqn:R. pose proof (co_destroy_Inv _ _ _ _ I R) as I1.
     destruct r; simpl; try assumption.
+  - destruct (co_destroy k s) as [r s1] eqn:R. pose proof (co_destroy_Inv _ _ _ _ I R) as I1.
+    destruct r; simpl; try assumption.
   - simpl. assumption.
   - destruct (unwind (S (List.length (cos s))) rets s) as [s1 l1] eqn:U.
     pose proof (unwind_Inv _ _ _ _ _ I U) as I1.
